@@ -158,3 +158,59 @@ __CPROVER_ensures(g_exc == 0 ==> g_assigned <= named_args_p->n) /*@ C19 "at most
     dropped=['all strings (placeholders, delimiter, formatted values): positions via the find stub', 'static function of BackendWorker'],
     trusted=['std::string::find returns the first match at or after start', 'names list abstracted to one tracked index'], min_obligations=30)
 UNITS.append(split_args)
+
+# ------------------------------------------------------------------------------------------ _populate_formatted_named_args: the key side of the pairs
+NK_PRELUDE = r'''
+typedef struct BW { int dummy; } BW;
+/* the statement's pair vector: size + one arbitrary tracked index g_p with its key (kind 1 = a placeholder name with id `val`, kind 2 = the surplus-argument key "_<val>") */
+typedef struct NV { size_t n; size_t g_p; int key_kind; size_t key_val; } NV;
+typedef struct TE { NV* named_args; } TE;
+NV g_fresh_nv; size_t g_news;
+size_t g_names, g_store; size_t g_name_at_p;             /* number of parsed placeholder names, number of decoded arguments, the name id at index g_p */
+static inline NV* NV_new(void) { g_news++; g_fresh_nv.n = 0; return &g_fresh_nv; }
+static inline size_t AN_size(void) { return g_names; }
+static inline size_t STORE_size(void) { return g_store; }
+size_t nondet_size(void);
+static inline size_t AN_name(NV* v, size_t i) { __CPROVER_assert(i < g_names, "name index within the parsed names"); return i == v->g_p ? g_name_at_p : nondet_size(); }
+static inline void NV_resize(NV* v, size_t m) { if (v->g_p >= v->n && v->g_p < m) { v->key_kind = 0; v->key_val = 0; } v->n = m; }       /* new elements are empty pairs */
+static inline void NV_set_key(NV* v, size_t i, size_t name) { __CPROVER_assert(i < v->n, "pair index within the vector"); if (i == v->g_p) { v->key_kind = 1; v->key_val = name; } }
+static inline void NV_push_placeholder(NV* v, size_t i) { if (v->n == v->g_p) { v->key_kind = 2; v->key_val = i; } v->n++; }
+#define NA(te) ((te)->named_args)
+'''
+named_keys = dict(
+    name='BW.named_keys', primary='C19', props={'C19'}, kind='S',
+    desc='BackendWorker::_populate_formatted_named_args, the part in front of the formatting: the pair vector gets one pair per argument, the k-th keyed by the k-th placeholder name; surplus arguments get the key "_<index>"',
+    structs=[], prelude=NK_PRELUDE, enforce='BW_prepare_named_args', replace=[], loopcontracts=True,
+    funcs=[dict(src=dict(header='quill/backend/BackendWorker.h', cls='BackendWorker', name='_populate_formatted_named_args'), src_params=['transit_event', 'arg_names'],
+                cfun='BW_prepare_named_args', sig='void BW_prepare_named_args(BW* self, TE* transit_event)', cls_c='BW', member_fields=[],
+                pre_rules=[(r'try\s*\{\s*_format_and_split_arguments.*\Z', '}', '!'),
+                           (r'transit_event->named_args\s*=\s*std::make_unique<std::vector<std::pair<std::string,\s*std::string>>>\(\)\s*;', 'transit_event->named_args = NV_new();'),
+                           (r'transit_event->named_args->resize\(arg_names\.size\(\)\)\s*;', 'NV_resize(NA(transit_event), AN_size());'),
+                           (r'\(\*transit_event->named_args\)\[i\]\.first\s*=\s*arg_names\[i\]\.first\s*;', 'NV_set_key(NA(transit_event), i, AN_name(NA(transit_event), i));'),
+                           (r'transit_event->named_args->push_back\(\s*std::pair<std::string,\s*std::string>\(fmtquill::format\("_\{\}",\s*i\),\s*std::string\{\}\)\)\s*;', 'NV_push_placeholder(NA(transit_event), i);'),
+                           (r'arg_names\.size\(\)', 'AN_size()'), (r'_format_args_store\.size\(\)', 'STORE_size()')],
+                loops={0: r'''
+__CPROVER_assigns(i, transit_event->named_args->key_kind, transit_event->named_args->key_val)
+__CPROVER_loop_invariant(i <= g_names && transit_event->named_args->n == g_names)
+__CPROVER_loop_invariant((transit_event->named_args->g_p < i) ==> (transit_event->named_args->key_kind == 1 && transit_event->named_args->key_val == g_name_at_p))
+__CPROVER_decreases(g_names - i)
+''', 1: r'''
+__CPROVER_assigns(i, transit_event->named_args->n, transit_event->named_args->key_kind, transit_event->named_args->key_val)
+__CPROVER_loop_invariant(i >= g_names && transit_event->named_args->n == i && (g_store >= g_names ==> i <= g_store))
+__CPROVER_loop_invariant((transit_event->named_args->g_p < g_names) ==> (transit_event->named_args->key_kind == 1 && transit_event->named_args->key_val == g_name_at_p))
+__CPROVER_loop_invariant((transit_event->named_args->g_p >= g_names && transit_event->named_args->g_p < i) ==> (transit_event->named_args->key_kind == 2 && transit_event->named_args->key_val == transit_event->named_args->g_p))
+__CPROVER_decreases(g_store - i)
+'''},
+                contract=r'''
+__CPROVER_requires(__CPROVER_is_fresh(self, sizeof(*self)) && __CPROVER_is_fresh(transit_event, sizeof(TE)) && (transit_event->named_args == NULL || __CPROVER_is_fresh(transit_event->named_args, sizeof(NV))))
+__CPROVER_requires(g_names <= 1000000 && g_store <= 1000000 && g_news == 0 && (transit_event->named_args != NULL ==> transit_event->named_args->n <= 1000000) && g_fresh_nv.g_p == (transit_event->named_args != NULL ? transit_event->named_args->g_p : g_fresh_nv.g_p))
+__CPROVER_assigns(transit_event->named_args, g_news, __CPROVER_object_whole(&g_fresh_nv))
+__CPROVER_assigns(transit_event->named_args != NULL: __CPROVER_object_whole(transit_event->named_args))
+__CPROVER_ensures(transit_event->named_args != NULL && transit_event->named_args->n == (g_store > g_names ? g_store : g_names)) /*@ C19 "the structured list has one key/value pair per argument (never fewer than the parsed names)" */
+__CPROVER_ensures(transit_event->named_args->g_p < g_names ==> (transit_event->named_args->key_kind == 1 && transit_event->named_args->key_val == g_name_at_p)) /*@ C19 "in order, keyed by the placeholder name: pair k carries the k-th name of the template" */
+__CPROVER_ensures((transit_event->named_args->g_p >= g_names && transit_event->named_args->g_p < g_store) ==> (transit_event->named_args->key_kind == 2 && transit_event->named_args->key_val == transit_event->named_args->g_p)) /*@ C19 "an argument without a placeholder name gets the key _<its index>" */
+''')],
+    harness='  BW* s; TE* te; BW_prepare_named_args(s, te);',
+    dropped=['the try block (formatting of the values: units BW.split_args, BW.fmt_named)', 'key strings as (kind, id); the pair vector as {size, one tracked index}', 'a recycled vector keeps its old pairs up to the new size: the loop overwrites every key below the number of names'],
+    trusted=['std::vector::resize default-constructs new elements; tracked-element abstraction'], min_obligations=20)
+UNITS.append(named_keys)
